@@ -4,7 +4,7 @@
    check (bin/check C10) and by the regenerated constants (Gen_Consts). *)
 From Coq Require Import List ZArith Lia Bool Arith NArith.
 From Coq.Strings Require Import Byte.
-From Muduo Require Import Base_Bytes Gen_Consts Gen_C10 C10_Model C10_Proofs C10_Cast C10_GenLink.
+From Muduo Require Import Base_Bytes Gen_Consts Gen_C10 C10_Model C10_Proofs C10_Cast C10_GenLink C10_Width.
 Import ListNotations.
 
 (* Every reachable concrete state [st] (any initial sizes, any accepted operation
@@ -571,3 +571,14 @@ Theorem C10_gen_readv_args : forall b B e,
   readFd_readv0_arg2 (set_iovcnt (readFd_let_iovcnt o) o) = Zn (readFd_iovcnt b).
 Proof. exact gen_readv_args. Qed.
 Print Assumptions C10_gen_readv_args.
+
+(* the model's unbounded indices and sizes are faithful: readerIndex_, writerIndex_, the three size observers
+   (unsigned) and readFd's signed result are 64-bit carriers (widths regenerated from the current header), so every
+   value below 2^63 is kept unchanged; an `int` index or a 32-bit size observer breaks this statement *)
+Theorem C10_index_width_faithful : forall n, (0 <= n < 2 ^ 63)%Z ->
+  uwrap Buffer_readerIndex_bits n = n /\ uwrap Buffer_writerIndex_bits n = n /\
+  uwrap Buffer_readableBytes_bits n = n /\ uwrap Buffer_writableBytes_bits n = n /\
+  uwrap Buffer_prependableBytes_bits n = n /\ swrap10 Buffer_readFd_result_bits n = n /\
+  Buffer_size_is_unsigned = 1%Z.
+Proof. exact buffer_width_faithful. Qed.
+Print Assumptions C10_index_width_faithful.
